@@ -93,9 +93,11 @@ class ServiceAccessPoint(object):
                 self.sock_list.remove(socket)
             except ValueError:
                 pass
-            if len(self.sock_list) == 0:
+            if len(self.sock_list) == 0 and self.llc.sap[self.addr] is self:
                 # completely remove this sap and the service name(s)
-                # that were registered for it
+                # that were registered for it (unless the address was
+                # already given to another service access point, when
+                # two threads close the same socket)
                 self.llc.sap[self.addr] = None
                 for name, addr in list(self.llc.snl.items()):
                     if addr == self.addr:
